@@ -61,6 +61,11 @@ CurveFailing(ev) ==
              \* processed and the whole history as one command array must give the same vertices
              \cup (IF "cmd" \in DOMAIN g /\ g.cmd /\ ~(ev.cmd_ok /\ ev.cmd_same)
                    THEN {<<0, "commands", "items_processed_or_single_array_differs">>} ELSE {})
+             \* Array overloads: every maximal run of sections of one polynomial kind issued as one call
+             \* (relative points taken from the end point before the call) gives the same vertices and
+             \* the same last control point as the single calls judged above
+             \cup (IF "batch_same" \in DOMAIN ev /\ ~ev.batch_same
+                   THEN {<<0, "array_overload", "one_call_per_run_differs">>} ELSE {})
 
 \* ---- shape primitives ----------------------------------------------------------
 D2(p) == <<2 * p[1], 2 * p[2]>>     \* logged coordinates are doubled (half-integers appear)
